@@ -16,7 +16,8 @@ RULE = ("(A) periodic coordinate ('direction' / 'longitude', period 360): grids 
         "[180.1,360) crossing the seam both ways: result on the shorter arc, node values at weight 0/1, bisector at "
         "1/2; (C) interpolate_periodic, interpolate_dataframe_time, Track.interpolate: exactly shortest-arc linear; "
         "(D) gridded (time,lat,lon) data interpolated at track points across the antimeridian with "
-        "interpolate_at_points vs a tri-linear reference on the longitude-extended grid. distinct = (part, "
+        "interpolate_at_points vs a tri-linear reference on the longitude-extended grid; (E) interpolate_dataset with a "
+        "Track geometry on datasets holding 1-3 direction variables plus a plain variable. distinct = (part, "
         "coordinate/variable, grid kind, seam crossing sense, jump class); non-trivial = a target in the wrap bin or "
         "a neighbour pair straddling the seam.")
 ASSUMPTIONS = ["angular tolerance 3e-5 degrees divided by the resultant length (implementation accumulates unit "
@@ -24,11 +25,13 @@ ASSUMPTIONS = ["angular tolerance 3e-5 degrees divided by the resultant length (
 REQUIRED_MONITORS = ["C14.periodic-coordinate==extended-grid-reference", "C14.periodic-coordinate:never-NaN",
                      "C14.periodic-coordinate:+360k-equal", "C14.angular:on-shorter-arc", "C14.angular:nodes",
                      "C14.angular:bisector", "C14.angular:range", "C14.interpolate_periodic==shortest-arc-linear",
-                     "C14.dataframe:direction", "C14.track:longitude", "C14.at_points==trilinear-periodic"]
+                     "C14.dataframe:direction", "C14.track:longitude", "C14.at_points==trilinear-periodic", "C14.geometry:direction-on-shorter-arc",
+                     "C14.geometry:plain-variable-periodic-longitude"]
 REQUIRED_REACH = ["grid.py:enclosing_points_1d", "math.py:wrapped_difference",
                   "nd_interp.py:NdInterpolator._periodic_data_interpolator", "general.py:interpolate_periodic",
                   "dataframe.py:interpolate_dataframe_time", "geometry.py:Track.interpolate",
-                  "dataset.py:interpolate_at_points", "dataarray.py:interpolate_track_data_arrray"]
+                  "dataset.py:interpolate_at_points", "dataarray.py:interpolate_track_data_arrray",
+                  "dataset.py:interpolate_dataset"]
 REQUIRED_COUNTERS = {"C14.targets_in_wrap_bin": 5, "C14.pairs_straddling_seam": 5, "C14.long_jumps(>180)": 5,
                      "C14.track_points_across_antimeridian": 3}
 TIMEOUT = {"quick": 600, "thorough": 3000}
@@ -362,14 +365,94 @@ def judge_points(ctx, c):
     ctx.check("C14.at_points:coords", bool(ok2), c, key="C14:at_points:coords")
 
 
-JUDGES = {"coord": judge_coord, "angular": judge_angular, "series": judge_series, "points": judge_points}
+# ------------------------------------------------------------------ E: interpolate_dataset (geometry) with direction data
+def case_geometry(rng):
+    nt, nla = int(rng.integers(2, 5)), int(rng.integers(2, 5))
+    nlo = int(rng.choice([8, 12, 24]))
+    lon = float(rng.choice([0.0, -180.0])) + np.arange(nlo) * 360.0 / nlo
+    lat = np.sort(rng.uniform(-60, 60, nla))
+    t = np.cumsum(rng.integers(600, 7200, nt)).astype("int64") + int(rng.integers(0, 10 ** 9))
+    nvar = int(rng.choice([1, 2, 3]))
+    fields = []
+    for _ in range(nvar):
+        a = np.empty((nt, nlo))
+        for k in range(nt):
+            a[k], _ = angular_series(rng, nlo)
+        fields.append(a % 360)
+    # track: on a latitude node, longitudes anywhere (also across the wrap bin), times = dataset times
+    ilat = int(rng.integers(0, nla))
+    plo = rng.uniform(-400, 400, nt)
+    if rng.uniform() < 0.5:
+        plo[0] = lon[-1] + rng.uniform(0.1, 0.9) * 360.0 / nlo  # inside the wrap bin
+    return {"part": "geometry", "time": t, "lat": lat, "lon": lon, "fields": fields, "ilat": ilat, "plo": plo,
+            "hs": rng.uniform(0, 3, (nt, nla, nlo))}
+
+
+def judge_geometry(ctx, c):
+    import xarray
+    from datetime import datetime, timezone
+    from ocean_science_utilities.interpolate.dataset import interpolate_dataset
+    from ocean_science_utilities.interpolate.geometry import Track
+    t = np.asarray(c["time"]).astype("int64")
+    lat, lon = np.asarray(c["lat"], float), np.asarray(c["lon"], float)
+    nt, nla, nlo = len(t), len(lat), len(lon)
+    names = ["meanDirection", "peakDirection", "wind_direction"][: len(c["fields"])]
+    data = {}
+    for nm, a in zip(names, c["fields"]):
+        data[nm] = (("time", "latitude", "longitude"), np.repeat(np.asarray(a, float)[:, None, :], nla, axis=1))
+    data["significantWaveHeight"] = (("time", "latitude", "longitude"), np.asarray(c["hs"], float))
+    t64 = t.astype("datetime64[s]").astype("datetime64[ns]")
+    ds = xarray.Dataset(data, coords={"time": t64, "latitude": lat, "longitude": lon})
+    plat = np.full(nt, lat[int(c["ilat"])])
+    plo = np.asarray(c["plo"], float)
+    times = [datetime.fromtimestamp(int(x), tz=timezone.utc) for x in t]
+    ctx.case(("geometry", len(names), nlo, float(lon[0])), nontrivial=True,
+             sample={"direction_variables": names, "track_lon": plo[:5], "lon_grid": lon[:4]})
+    ctx.count("C14.geometry_cases_with_%d_direction_variables" % len(names))
+    ok, out = guarded(ctx, "C14.no-exception", lambda: interpolate_dataset(ds, Track.from_arrays(plat, plo, times, "trk")), c,
+                      key="C14:exception:interpolate_dataset")
+    if not ok:
+        return
+    df = list(out.values())[0]
+    red = (plo - lon[0]) % 360 + lon[0]
+    step = 360.0 / nlo
+    i0 = np.minimum(np.floor((red - lon[0]) / step).astype(int), nlo - 1)
+    i1 = (i0 + 1) % nlo
+    w = (red - lon[i0]) / step
+    for nm, a in zip(names, c["fields"]):
+        a = np.asarray(a, float)
+        if nm not in df.columns or len(df[nm]) != nt:
+            ctx.check("C14.geometry:direction-on-shorter-arc", False, c, {"missing": nm}, key="C14:geometry:columns")
+            continue
+        g = np.asarray(df[nm].values, float)
+        a0, a1 = a[np.arange(nt), i0], a[np.arange(nt), i1]
+        delta = circ_diff(a1, a0)
+        R = np.abs((1 - w) * np.exp(1j * np.deg2rad(a0)) + w * np.exp(1j * np.deg2rad(a1)))
+        tol = 3e-5 / np.maximum(R, 1e-6) + 1e-6
+        off = circ_diff(g, a0)
+        judged = np.abs(delta) < 179.9
+        on_arc = (np.sign(delta) * off >= -tol) & (np.sign(delta) * off <= np.abs(delta) + tol)
+        ctx.check("C14.geometry:direction-on-shorter-arc", bool(np.all(on_arc | ~judged)), c,
+                  {"variable": nm, "left": a0, "right": a1, "w": w, "got": g}, key="C14:geometry:arc:" + nm)
+        ctx.check("C14.geometry:direction-range", bool(np.all((g >= 0) & (g < 360))), c, {"variable": nm, "got": g},
+                  key="C14:geometry:range")
+    # a plain variable: periodic longitude coordinate, linear
+    hs = np.asarray(c["hs"], float)[np.arange(nt), int(c["ilat"])]
+    want = (1 - w) * hs[np.arange(nt), i0] + w * hs[np.arange(nt), i1]
+    if "significantWaveHeight" in df.columns and len(df) == nt:
+        ctx.close("C14.geometry:plain-variable-periodic-longitude", np.asarray(df["significantWaveHeight"].values, float),
+                  want, atol=1e-9, rtol=1e-9, case=c, key="C14:geometry:plain")
+
+
+JUDGES = {"coord": judge_coord, "angular": judge_angular, "series": judge_series, "points": judge_points,
+          "geometry": judge_geometry}
 
 
 def run_shard(ctx, shard):
     rng = ctx.rng()
-    gens = [case_coord, case_angular, case_series, case_points]
+    gens = [case_coord, case_angular, case_series, case_points, case_geometry]
     for i in range(shard["n"]):
-        c = gens[i % 4](rng)
+        c = gens[i % 5](rng)
         JUDGES[c["part"]](ctx, c)
 
 
